@@ -32,10 +32,15 @@ def run(ctx):
     n = 1 if ctx.tier == 'quick' else 8
     checks = []
     for i in range(260 * n):
-        mode = ctx.rng.choice(['terminal', 'terminal', 'mid', 'mid', 'mid', 'clifford'])
+        mode = ctx.rng.choice(['terminal', 'terminal', 'mid', 'mid', 'mid', 'clifford', 'clifford'])
         c, qs = mcircuits.random_mcircuit(cirq, ctx.rng, qudits=(mode != 'clifford' and ctx.rng.random() < 0.4), mid=(mode != 'terminal'),
-                                          cc=(mode != 'terminal'), clifford=(mode == 'clifford'))
+                                          cc=(mode != 'terminal'), clifford=(mode == 'clifford'),
+                                          wires=(ctx.rng.randint(2, 4) if mode == 'clifford' else None),
+                                          max_ops=(16 if mode == 'clifford' else 9), max_digits=(6 if mode == 'clifford' else 4))
         case_checks(ctx, cirq, c, qs, mode, checks)
+    for i in range(70 * n):
+        c, qs = mcircuits.clifford_deep(cirq, ctx.rng)
+        case_checks(ctx, cirq, c, qs, 'clifford', checks)
     sample_stream(ctx, cirq, 25 * n)
     evaluate(ctx, checks)
 
@@ -64,13 +69,14 @@ def case_checks(ctx, cirq, c, qs, mode, checks):
     desc = str(c).replace('\n', ' | ')[:400]
     entries = ['Simulator.run', rng.choice(['Simulator.simulate', 'DensityMatrixSimulator.run', 'DensityMatrixSimulator.simulate'])]
     if mode == 'clifford':
-        entries.append('CliffordSimulator.run')
+        entries += ['CliffordSimulator.run', 'StabilizerSampler.run']
     for entry in entries:
         try:
             if entry.endswith('.run'):
                 mk = {'Simulator.run': lambda s: cirq.Simulator(seed=s, split_untangled_states=rng_split),
                       'DensityMatrixSimulator.run': lambda s: cirq.DensityMatrixSimulator(seed=s, split_untangled_states=rng_split),
-                      'CliffordSimulator.run': lambda s: cirq.CliffordSimulator(seed=s)}[entry]
+                      'CliffordSimulator.run': lambda s: cirq.CliffordSimulator(seed=s),
+                      'StabilizerSampler.run': lambda s: cirq.StabilizerSampler(seed=s)}[entry]
                 rng_split = rng.random() < 0.5
                 br = enumerate_runs(lambda s: opsem.flat_record(mk(s).run(c, repetitions=1).records, meas))
                 branches = [(p, r, None) for p, r, _ in br]
